@@ -61,6 +61,25 @@ def const_of(b, op):
     return mir.o_const_value(b.origin(op))
 
 
+def array_len(b, o):
+    """N when the origin is `.len()` of a slice unsized from a `[T; N]` array (or of the array itself)."""
+    if not (o[0] == "call" and o[1].callee.get("name") == "len" and o[1].args):
+        return None
+    a = o[1].args[0]
+    pl = a.get("c") or a.get("m")
+    if pl is None or "p" in pl:
+        return None
+    for d in b.defs().get(pl["l"], ()):
+        if d[2] == "assign" and d[3]["k"] == "cast":
+            m = re.search(r"\[.*; (\d+)\]$", d[3].get("from_ty") or "")
+            if m:
+                return int(m.group(1))
+    m = re.search(r"\[.*; (\d+)\]$", b.local_ty(pl["l"]))
+    if m:
+        return int(m.group(1))
+    return None
+
+
 def discharge(b, s):
     """A one-line reason if the site provably cannot fire, else None."""
     t = s["term"]
@@ -73,6 +92,9 @@ def discharge(b, s):
                 v, z = mir.o_const_value(side), mir.o_const_value(other)
                 if isinstance(v, int) and v != 0 and z == 0:
                     return "constant non-zero divisor %d" % v
+                n = array_len(b, side)
+                if n and z == 0:
+                    return "divisor is the length of a %d-element array" % n
     if k == "assert:bounds":
         idx = b.origin(t["msg"]["index"])
         ln = const_of(b, t["msg"]["len"])
@@ -82,6 +104,8 @@ def discharge(b, s):
                 return "constant index %d < constant length %d" % (iv, ln)
             if idx[0] == "binop" and idx[1] == "Rem":
                 m = mir.o_const_value(idx[3])
+                if not isinstance(m, int):
+                    m = array_len(b, idx[3])
                 if isinstance(m, int) and 0 < m <= ln:
                     return "index is x %% %d into an array of length %d" % (m, ln)
             if idx[0] == "cast":
